@@ -64,7 +64,8 @@ type View struct {
 }
 
 type Case struct {
-	Kind string `json:"kind"`
+	Kind string   `json:"kind"`
+	Muts []string `json:"muts,omitempty"` // mutations applied by the generator (labels only)
 	View View   `json:"view"`
 	Tx   string `json:"tx"` // hex of the full (signed) encoding
 	Ts   uint64 `json:"ts"`
@@ -97,6 +98,11 @@ type Store struct {
 	assetIds  []crypto.Hash
 	ghostErr  bool
 	Reads     int // number of store calls made by the code under test
+	// what the code under test actually read (the model case carries exactly these entries)
+	readUtxo                                             map[string]bool
+	readTx                                               map[crypto.Hash]bool
+	readTxOrder                                          []crypto.Hash
+	readNodes, readCust, readAsset, readMint, readDepLock bool
 }
 
 func hx(s string) []byte {
@@ -126,7 +132,8 @@ func nodeAddress(spend crypto.Key) common.Address {
 }
 
 func NewStore(v *View) (*Store, error) {
-	s := &Store{utxoBytes: map[string][]byte{}, txs: map[crypto.Hash]*storedTx{}, assets: map[crypto.Hash]*assetEntry{}}
+	s := &Store{utxoBytes: map[string][]byte{}, txs: map[crypto.Hash]*storedTx{}, assets: map[crypto.Hash]*assetEntry{},
+		readUtxo: map[string]bool{}, readTx: map[crypto.Hash]bool{}}
 	for _, uh := range v.Utxos {
 		b := hx(uh)
 		u, err := common.UnmarshalUTXO(b)
@@ -204,11 +211,16 @@ func (s *Store) peekUTXO(h crypto.Hash, i uint) *common.UTXOWithLock {
 
 func (s *Store) ReadUTXOLock(h crypto.Hash, i uint) (*common.UTXOWithLock, error) {
 	s.Reads++
+	s.readUtxo[slotKey(h, i)] = true
 	return s.peekUTXO(h, i), nil
 }
 
 func (s *Store) ReadTransaction(h crypto.Hash) (*common.VersionedTransaction, string, error) {
 	s.Reads++
+	if !s.readTx[h] {
+		s.readTx[h] = true
+		s.readTxOrder = append(s.readTxOrder, h)
+	}
 	st := s.txs[h]
 	if st == nil {
 		return nil, "", nil
@@ -221,11 +233,13 @@ func (s *Store) ReadTransaction(h crypto.Hash) (*common.VersionedTransaction, st
 
 func (s *Store) ReadDepositLock(d *common.DepositData) (crypto.Hash, error) {
 	s.Reads++
+	s.readDepLock = true
 	return s.deposit, nil
 }
 
 func (s *Store) ReadLastMintDistribution(batch uint64) (*common.MintDistribution, error) {
 	s.Reads++
+	s.readMint = true
 	if s.mint == nil {
 		return nil, nil
 	}
@@ -249,6 +263,7 @@ func (s *Store) LockGhostKeys(keys []*crypto.Key, tx crypto.Hash, fork bool) err
 
 func (s *Store) ReadAllNodes(ts uint64, withState bool) []*common.Node {
 	s.Reads++
+	s.readNodes = true
 	out := make([]*common.Node, len(s.nodes))
 	for i, n := range s.nodes {
 		c := *n
@@ -259,11 +274,13 @@ func (s *Store) ReadAllNodes(ts uint64, withState bool) []*common.Node {
 
 func (s *Store) ReadCustodian(ts uint64) (*common.CustodianUpdateRequest, error) {
 	s.Reads++
+	s.readCust = true
 	return s.custodian, nil
 }
 
 func (s *Store) ReadAssetWithBalance(id crypto.Hash) (*common.Asset, common.Integer, error) {
 	s.Reads++
+	s.readAsset = true
 	a := s.assets[id]
 	if a == nil {
 		return nil, common.Zero, nil
